@@ -30,6 +30,7 @@ def cases(ctx):
         if rng.random() < 0.5:
             c['mode'] = 'byte'
         out.append(c)
+    out += gen.multipart_eci_cases(rng, ctx.thorough)[::3]
     return out
 
 
